@@ -24,24 +24,24 @@ type encCtx struct {
 }
 
 type c03state struct {
-	aeadDone int
-	kmsDone  int
-	ledDone  int
-	sk       map[[32]byte]bool
-	ik       map[[32]byte]string // plaintext hash -> "id|created" ("" while the row is not known yet)
-	ikCipher map[[32]byte][32]byte // ciphertext hash -> IK plaintext hash (wrap output)
-	ikCiphers map[[32]byte]map[[32]byte]bool // IK plaintext hash -> ciphertexts it was wrapped as / unwrapped from
-	bytes    map[[32]byte][]byte
-	random   map[[32]byte]string // CreateRandom secret hash -> op label it was created in
-	drkUsed  map[[32]byte]int
-	nonces   map[[12]byte]int
-	longKeys [][]byte // SK / IK plaintexts
-	recent   [][]byte // DRK plaintexts of the last few operations
-	scanned  int64
-	formCache map[*byte][][]byte
-	lastPayload *byte
+	aeadDone         int
+	kmsDone          int
+	ledDone          int
+	sk               map[[32]byte]bool
+	ik               map[[32]byte]string            // plaintext hash -> "id|created" ("" while the row is not known yet)
+	ikCipher         map[[32]byte][32]byte          // ciphertext hash -> IK plaintext hash (wrap output)
+	ikCiphers        map[[32]byte]map[[32]byte]bool // IK plaintext hash -> ciphertexts it was wrapped as / unwrapped from
+	bytes            map[[32]byte][]byte
+	random           map[[32]byte]string // CreateRandom secret hash -> op label it was created in
+	drkUsed          map[[32]byte]int
+	nonces           map[[12]byte]int
+	longKeys         [][]byte // SK / IK plaintexts
+	recent           [][]byte // DRK plaintexts of the last few operations
+	scanned          int64
+	formCache        map[*byte][][]byte
+	lastPayload      *byte
 	lastPayloadForms [][]byte
-	artefacts int64
+	artefacts        int64
 }
 
 func newC03() *c03state {
